@@ -112,6 +112,11 @@ CLAIMED = {
              'the sequential model run is one such schedule. NOT expressible in a Gallina model: real process scheduling, pickling, OS behaviour, p_imap returning results in input order (trusted) — exercised by real runs with -c 1,2,3,5,8,16, repetitions, jittered completion orders and recorded execute() order, files compared byte-wise minus the "# coma" line.',
         note=NOTE + 'p_tqdm.p_imap input-order contract and process isolation are trusted; seeding numerics assumed deterministic (checked by repetition).', design='6 (C09), 10.4',
         technique='Coq proof (source-erasure noninterference over all schedules) + pipeline correspondence with different counters + end-to-end multi-worker byte comparison'),
+    'C07': dict(
+        text='PARTIAL. coq/props/C07.v covers the modelled glue: every segment Aligner.align builds (SU <= 0 < MS) starts and ends on a pair, so all accessors, the pre-order and the chain are total; slice raises exactly when its kept window consists of poppable positions only, resolve_pair raises only through slice, the first resolution step between factory segments is total; '
+             'cigarString is total on valid matchings; the reader is total on every file the writer produces incl. zero records (re-export of C18); witnesses for the defects found (join IndexError, pair-less joined row) and totality of the repaired variants. NOT expressible in a Gallina model: exceptions raised inside numpy/scipy/pandas, memory, signals — exercised by a degenerate-input corpus through the real CLI in every mode, '
+             'parameter corners, read-back of every written file with the project reader, and a crash-search stream over first pass -> fragments -> second pass -> join -> writer -> reader.',
+        note=NOTE + 'Open/fixed findings F8, F9, F11 are listed in known_findings.json with concrete inputs.', design='6 (C07), 10.2', technique='Coq totality proofs for the modelled glue + refutation witnesses + degenerate end-to-end corpus and crash-search oracle'),
 }
 PENDING_REASON = 'check not built yet in this round (planned: DESIGN.md section 6); will be claimed once its model, theorems and correspondence run'
 
